@@ -4,8 +4,12 @@
 // writer ops  (kind: m = CMsgPackStringWriter, s = CMsgPackStreamWriter)     -> hex bytes | ERR <cat>
 //   w <kind> nil | bool <0|1> | u8|u16|u32|u64 <hex> | i8|i16|i32|i64 <shex> | f32|f64 <hexbits>
 //            | str <hexbytes> | strn <hexlen> | arr|map|bin <hexlen> | ts <shex secs> <shex nanos>
-// reader ops  (kind: m = CMsgPackStringReader, s = CMsgPackStreamReader; pol = two letters mismatch,overflow in T|S)
+// reader ops  (kind: m = CMsgPackStringReader, s = CMsgPackStreamReader on std::istringstream,
+//              n<K> = CMsgPackStreamReader on a streambuf WITHOUT seek support delivering 1..3 bytes per underflow; K must be the
+//              compiled CBinaryStreamReader::chunk_size, else the answer is UNSUPPORTED;
+//              pol = two letters mismatch,overflow in T|S)
 //   r <kind> <pol> int <u|s><bits> <hexdata> | nil | f32 | f64 | str | arr | map | bin | ts | type | skip | byte
+//   (in q / p sequences also  seek:<decimal pos> = SetPosition(pos), answered OK - <pos after>;  end = IsEnd(), answered OK <0|1> <pos>)
 //   answers: OK <value> <consumed> | NOT <consumed> | ERR <cat>
 //   q <kind> <pol> <op,op,...> <hexdata>   a sequence of reads on one reader (int ops written int:<type>), answers joined by ';'
 //   p <kind> <pol> <op,op,...> <hexdata>   the same, and an exception is answered ERR <cat> <GetPosition() after the throw>
@@ -14,6 +18,8 @@
 #include <cmath>
 #include <cstring>
 #include <sstream>
+#include <streambuf>
+#include <algorithm>
 #include "msgpack/msgpack_writers.h"
 #include "msgpack/msgpack_readers.h"
 
@@ -52,6 +58,24 @@ static std::string fmt_shex(int64_t v) {
 	else std::snprintf(buf, sizeof buf, "+%llx", (unsigned long long)v);
 	return buf;
 }
+// a character sequence whose streambuf has no seekpos/seekoff (std::streambuf's defaults fail) and underflows 1..3 bytes at a time
+class NoSeekBuf : public std::streambuf {
+public:
+	explicit NoSeekBuf(std::string data) : mData(std::move(data)) {}
+protected:
+	int_type underflow() override {
+		if (mPos >= mData.size()) return traits_type::eof();
+		const size_t n = std::min(mNext, mData.size() - mPos);
+		mNext = mNext % 3 + 1;
+		char* p = &mData[mPos];
+		setg(p, p, p + n);
+		mPos += n;
+		return traits_type::to_int_type(*p);
+	}
+private:
+	std::string mData; size_t mPos = 0; size_t mNext = 1;
+};
+
 static std::string fmt_hexnum(uint64_t v) { char buf[40]; std::snprintf(buf, sizeof buf, "%llx", (unsigned long long)v); return buf; }
 
 template <class W>
@@ -133,6 +157,8 @@ static std::string do_read1(R& r, const std::string& op, const std::string& ty) 
 	if (op == "ts") { CBinTimestamp v; bool ok = r.ReadValue(v); return done(ok, fmt_shex(v.Seconds) + "," + fmt_shex(v.Nanoseconds)); }
 	if (op == "skip") { r.SkipValue(); return done(true, "-"); }
 	if (op == "type") { auto v = r.ReadValueType(); return done(true, std::to_string(static_cast<int>(v))); }
+	if (op == "seek") { r.SetPosition(std::stoul(ty)); return done(true, "-"); }      // seek:<decimal position>
+	if (op == "end") { const bool e = r.IsEnd(); return done(true, e ? "1" : "0"); }
 	throw std::runtime_error("unknown reader op");
 }
 
@@ -155,6 +181,10 @@ int main() {
 				opt.overflowNumberPolicy = t.at(2).at(1) == 'T' ? OverflowNumberPolicy::ThrowError : OverflowNumberPolicy::Skip;
 				std::string data = vh::parse_hex(t.back());
 				if (t.at(1) == "m") { CMsgPackStringReader r(data, opt); std::cout << do_seq(r, t.at(3), errpos) << "\n"; }
+				else if (t.at(1).at(0) == 'n') {
+					if (std::stoul(t.at(1).substr(1)) != BitSerializer::Detail::CBinaryStreamReader::chunk_size) std::cout << "UNSUPPORTED\n";
+					else { NoSeekBuf buf(data); std::istream is(&buf); CMsgPackStreamReader r(is, opt); std::cout << do_seq(r, t.at(3), errpos) << "\n"; }
+				}
 				else { std::istringstream is(data); CMsgPackStreamReader r(is, opt); std::cout << do_seq(r, t.at(3), errpos) << "\n"; }
 			}
 			else if (t.at(0) == "r") {
